@@ -131,14 +131,19 @@ def run(ctx):
             hook.on = True
             # how the caller names the file: absolute path, or relative to the working directory (bare name / ./name)
             style = rng.choice(["abs", "abs", "bare", "dot"])
-            arg = os.path.join(d, name) if style == "abs" else (name if style == "bare" else "./" + name)
+            if ncoll == 0 and rng.random() < 0.08:
+                style = "root"     # a file directly below the root directory: the only separator is the leading one (nothing is created there)
+                ctx.count("calls_with_a_name_directly_below_the_root_directory")
+            arg = os.path.join(d, name) if style == "abs" else ("/" + name if style == "root" else name if style == "bare" else "./" + name)
             old_cwd = os.getcwd()
             try:
-                if style != "abs":
+                if style not in ("abs", "root"):
                     os.chdir(d)
                     ctx.count("calls_with_a_name_relative_to_the_working_directory")
+                elif style == "root":
+                    os.chdir(d)
                 res = misc.clean_file_name(arg, unique=unique)
-                if style != "abs":
+                if style not in ("abs", "root"):
                     res = os.path.join(d, res[2:] if res.startswith("./") else res)       # what the relative result denotes
             except Exception as e:
                 hook.on = False
@@ -150,7 +155,7 @@ def run(ctx):
             hook.on = False
             if created:
                 ctx.violation("creates-files", "clean_file_name itself created files", {"name": name, "events": created[:5]})
-            bad = check_result(name, res, d, unique)
+            bad = check_result(name, res, "/" if style == "root" else d, unique)
             base = os.path.basename(res)
             has_ext = "." in name
             extlen = len(name.rsplit(".", 1)[1]) if has_ext else 0
